@@ -668,6 +668,11 @@ func corpus(c *run.Ctx, h *harness, entries []inproc) {
 				h.evalBatch(c, e, [][]byte{in}, []string{"corpus"}, false)
 			}
 		}
+		for _, fe := range flagEntries {
+			if fe.name == entry {
+				h.flagBatch(c, fe, []string{string(in)})
+			}
+		}
 	}
 }
 
@@ -731,6 +736,17 @@ func runC16(c *run.Ctx, s *kit.Summary) {
 			}
 		}
 		h.evalBatch(c, e, ex, exKinds, false)
+		// the fixed edge list (nothing, white space in all mixtures, lone delimiters, one digit, one
+		// unit, empty lists …): always run, so that such inputs do not depend on the random draw
+		ed := edgeInputs(e.name)
+		edKinds := make([]string, len(ed))
+		for i := range ed {
+			edKinds[i] = "edge"
+			if e.pre != nil {
+				ed[i] = e.pre(ed[i])
+			}
+		}
+		h.evalBatch(c, e, ed, edKinds, false)
 	}
 	for _, e := range entries {
 		n := c.N(8000, 400000)
@@ -768,7 +784,8 @@ func runC16(c *run.Ctx, s *kit.Summary) {
 
 	for _, fe := range flagEntries {
 		n := c.N(6000, 300000)
-		vals := append([]string{""}, fe.fixed...)
+		vals := append(edgeFlagValues(fe.name), fe.fixed...)
+		h.s.CountN(fe.name+":fixed edge values", len(vals))
 		one := func() string {
 			switch k := r.Pick(12); {
 			case k < 2:
